@@ -207,8 +207,19 @@ func TestC08(t *testing.T) {
 	o.ScaleTx = true
 	o.Kinds = []hist.UnitKind{hist.UTxXID, hist.UTxXID, hist.UTxCommit, hist.UAutoRows, hist.UDDL}
 	o.Col = gen.ColumnOpt{Only: []byte{refenc.TVarchar, refenc.TBlob, refenc.TTimestamp, refenc.TTimestamp2, refenc.TLong, refenc.TString, refenc.TBit, refenc.TNewDecimal, refenc.TGeometry}}
+	// second shape: every supported type, and every second value is the zero / empty / null value of its
+	// type - the texts a decoder is most tempted to hand out from one shared place
+	oc := o
+	oc.Lim.Constants = true
+	oc.Lim.SmallJSON = true
+	oc.MaxRows = 4
+	oc.Col = gen.ColumnOpt{}
 	rapidCheck(t, func(rt *rapid.T) {
-		c := &StabilityCase{E: E2ECase{H: gen.History(rt, o)}, Scribble: rapid.Bool().Draw(rt, "scribble")}
+		ho := o
+		if rapid.IntRange(0, 2).Draw(rt, "constants_shape") == 0 {
+			ho = oc
+		}
+		c := &StabilityCase{E: E2ECase{H: gen.History(rt, ho)}, Scribble: rapid.Bool().Draw(rt, "scribble")}
 		c.E.Pacing = rapid.IntRange(0, 1).Draw(rt, "pacing")
 		// push some string / blob values to 3000..9000 bytes so that packets straddle the driver's 4 KiB buffer
 		big, zeroTS := 0, 0
